@@ -89,6 +89,49 @@ def simulate(ctx, mix, kind, n, length, seed):
     return stages.parse_cases(res.out)
 
 
+def pairs_stage(ctx, binpath):
+    """spec/GsTPair.tla: overlap scenarios pre;(H||X);post tabulated by TLC, run on the real adapter (TestPairs), judged by TLC
+    against the two sequential orders of GsTOps!Step. Returns (#scenarios, #overlapped, verdict rows, observations by case)."""
+    gen = stages.write_cfg(ctx, "pair-gen.cfg", 'CONSTANTS\n Mode = "gen"\n ObsFile = "none.ndjson"\n OutFile = "paircases.ndjson"\n')
+    res = ctx.tlc("GsTPair", gen, workers=1, timeout=300)
+    vlib.tlc_must_pass(res, "GsTPair tabulation")
+    cases = os.path.join(res.dir, "paircases.ndjson")
+    if not os.path.exists(cases):
+        raise Inconclusive("GsTPair produced no scenarios")
+    obs = ctx.path("pairobs.ndjson")
+    ctx.must_run_go(binpath, "TestPairs", env={"VERIF_CASES": cases, "VERIF_OUT": obs}, timeout=600)
+    rows = vlib.read_ndjson(obs)
+    if not rows:
+        raise Inconclusive("gstx TestPairs wrote no observations")
+    jc = stages.write_cfg(ctx, "pair-judge.cfg", 'CONSTANTS\n Mode = "judge"\n ObsFile = "pairobs.ndjson"\n OutFile = "pairverdicts.ndjson"\n')
+    res2 = ctx.tlc("GsTPair", jc, workers=1, timeout=900, extra_files=[obs], heap="6g")
+    vlib.tlc_must_pass(res2, "GsTPair judge")
+    m = re.search(r'<<"@@judged", (\d+)>>', res2.out)
+    if not m or int(m.group(1)) != len(rows):
+        raise Inconclusive("GsTPair judge saw %s of %d pair observations" % (m.group(1) if m else "?", len(rows)))
+    vp = os.path.join(res2.dir, "pairverdicts.ndjson")
+    verdicts = vlib.read_ndjson(vp) if os.path.exists(vp) else []
+    for v in verdicts:
+        if v["rule"] == "harness":
+            raise Inconclusive("pair harness error in %s" % v["case"])
+    nover = len([r for r in rows if r["overlap"]])
+    if nover * 2 < len(rows):
+        raise Inconclusive("the handler gate achieved an overlap in only %d of %d pair scenarios" % (nover, len(rows)))
+    return len(rows), nover, verdicts, {r["case"]: r for r in rows}
+
+
+def pair_key(v):
+    return {"rule": v["rule"], "pair": "InReq||" + v["op"], "reenter": v["reenter"]}
+
+
+def pair_detail(v, o):
+    def brief(s):
+        return {"op": s["a"]["op"], "r": s["a"]["r"], "ret": s["ret"], "out": [(x["call"], "%s>%s#%d" % (x["c"]["init"], x["c"]["resp"], x["c"]["tid"])) for x in s["out"]],
+                "gsc": [(g["call"], g["r"], g["ret"]) for g in s["gsc"]], "hook": [(h["a"], h["x"]) for h in s["hook"]]}
+    return {"verdict": v, "pre": [brief(s) for s in o["pre"]], "h": brief(o["h"]), "x": brief(o["x"]), "post": [brief(s) for s in o["post"]],
+            "reenter": o["reenter"], "overlap": o["overlap"], "stuck": o["stuck"], "stacks": o.get("stacks", ""), "opts_after": o["opts"]}
+
+
 def race_reports(out):
     """(reports attributed to /repo packages, reports in harness code only) from a -race run's output."""
     reps = re.split(r"={10,}\n", out)
@@ -223,6 +266,24 @@ def run(ctx):
     with open(allstorm, "w") as f:
         for p in storm_files:
             f.write(open(p).read())
+    # 4b. overlap scenarios (atomicity assumption of GsT.tla): hook in its handler || Transport method on the same channel
+    npair, nover, pverd, pobs = pairs_stage(ctx, b)
+    ctx.extra["pair_scenarios"] = {"run": npair, "overlapped": nover}
+    ctx.traces += npair
+    ctx.evaluations += sum(2 + len(o["pre"]) + len(o["post"]) for o in pobs.values())
+    for o in pobs.values():
+        ctx.distinct.add(("pair", o["x"]["a"]["op"], o["h"]["a"]["ext"], o["reenter"], len(o["pre"]), o["x"]["ret"]))
+    for v in pverd:
+        if v["rule"] == "conf":
+            ctx.drift.append({"case": v["case"], "op": "InReq||" + v["op"], "note": "pair outcome equals neither sequential order of GsTOps!Step"})
+        elif v["rule"] == "nooverlap":
+            continue
+        elif v["rule"] == "C20.everyCallReturns":
+            raise Inconclusive("the adapter did not return from %s concurrent with an incoming-request hook (case %s): a C20 matter, nothing more can be "
+                               "asked of this adapter\n%s" % (v["op"], v["case"], pobs[v["case"]].get("stacks", "")[:1500]))
+        else:
+            ctx.violation(pair_key(v), "%s violated by an incoming-request hook overlapping %s (handler re-entry: %s; case %s)" % (v["rule"], v["op"], v["reenter"], v["case"]),
+                          detail=pair_detail(v, pobs[v["case"]]))
     # 5. judge (two TLC processes: replays, storms)
     empty = ctx.path("empty.ndjson")
     open(empty, "w").close()
@@ -254,7 +315,7 @@ def run(ctx):
         raise Inconclusive("judge saw %d replay cases, harness wrote %d, generated %d" % (n1, len(obs_idx), len(cases)))
     if n2 != len(storm_rows):
         raise Inconclusive("judge saw %d storms, harness wrote %d" % (n2, len(storm_rows)))
-    ctx.traces = n1 + n2
+    ctx.traces += n1 + n2
     # 6. verdicts
     storm_idx = {s["case"]: s for s in storm_rows}
     # per case and rule only the first failing step (later ones are usually consequences of the first)
